@@ -13,6 +13,13 @@ theorem upd_other (st : State) (w : Nat) (ws : WState) (i : Nat) (h : i ≠ w) :
     upd st w ws i = st i := by
   simp [upd, h]
 
+@[simp] theorem setDb_same (m : Nat → Option Db3) (k : Nat) (v : Db3) : setDb m k v k = some v := by
+  simp [setDb]
+
+theorem setDb_other (m : Nat → Option Db3) (k : Nat) (v : Db3) (i : Nat) (h : i ≠ k) :
+    setDb m k v i = m i := by
+  simp [setDb, h]
+
 /-- the part of a wire message that concerns slot `σ` when the request is for database `db` -/
 def Parts.at (p : Parts) (db : Nat) : Slot → Option Tok
   | .schema d => if d = db then p.schema else none
@@ -21,88 +28,64 @@ def Parts.at (p : Parts) (db : Nat) : Slot → Option Tok
   | .glob => p.glob
   | .sys => p.sys
 
-/-! ### wsyncTail -/
-
-theorem wsyncTail_dbs (env : Env) (a : Side) (p : Parts) (d : Db3) :
-    (wsyncTail env a p d).1.dbs = a.dbs ∧ (wsyncTail env a p d).1.last = a.last := by
-  unfold wsyncTail
-  split <;> split <;> (try split) <;> (try split) <;> simp
-
-theorem wsyncTail_glob (env : Env) (a : Side) (p : Parts) (d : Db3) :
-    (wsyncTail env a p d).1.glob = a.glob ∨ p.glob = some (wsyncTail env a p d).1.glob := by
-  unfold wsyncTail
-  split <;> split <;> (try split) <;> (try split) <;> simp_all
-
-theorem wsyncTail_sys (env : Env) (a : Side) (p : Parts) (d : Db3) :
-    (wsyncTail env a p d).1.sys = a.sys ∨ p.sys = some (wsyncTail env a p d).1.sys := by
-  unfold wsyncTail
-  split <;> split <;> (try split) <;> (try split) <;> simp_all
-
-theorem wsyncTail_ok (env : Env) (a : Side) (p : Parts) (d d' : Db3)
-    (h : (wsyncTail env a p d).2 = some d') :
-    d' = d ∧ (wsyncTail env a p d).1.glob = p.glob.getD a.glob ∧
-      (wsyncTail env a p d).1.sys = p.sys.getD a.sys := by
-  unfold wsyncTail at h ⊢
-  split <;> split <;> (try split) <;> (try split) <;> simp_all
-
-theorem wsyncTail_fail (env : Env) (a : Side) (p : Parts) (d : Db3)
-    (hg : badO env p.glob = false) (hy : badO env p.sys = false) :
-    (wsyncTail env a p d).2 = some d := by
-  unfold wsyncTail
-  split <;> split <;> (try split) <;> (try split) <;> simp_all [badO]
+theorem getD_cases (x : Option Tok) (old : Tok) : x.getD old = old ∨ x = some (x.getD old) := by
+  cases x <;> simp
 
 /-! ### wsync -/
 
+theorem wsync_last (env : Env) (a : Side) (db : Nat) (p : Parts) :
+    (wsync env a db p).1.last = a.last := by
+  unfold wsync
+  split
+  · split
+    · split <;> rfl
+    · rfl
+  · split <;> rfl
 
-@[simp] theorem setDb_same (m : Nat → Option Db3) (k : Nat) (v : Db3) : setDb m k v k = some v := by
-  simp [setDb]
-theorem setDb_other (m : Nat → Option Db3) (k : Nat) (v : Db3) (i : Nat) (h : i ≠ k) :
-    setDb m k v i = m i := by
-  simp [setDb, h]
+/-- `FailedStateSync` leaves the worker exactly as it was -/
+theorem wsync_fail_clean (env : Env) (a : Side) (db : Nat) (p : Parts) :
+    (wsync env a db p).2 = none → (wsync env a db p).1 = a := by
+  unfold wsync
+  split
+  · split
+    · split <;> simp
+    · simp
+  · split <;> simp
 
 /-- each slot of the worker either keeps its value or takes the value sent for it -/
 theorem wsync_slot (env : Env) (a : Side) (db : Nat) (p : Parts) (σ : Slot) :
     (wsync env a db p).1.get σ = a.get σ ∨
       ∃ t, p.at db σ = some t ∧ (wsync env a db p).1.get σ = some t := by
-  have hd := fun a' d => wsyncTail_dbs env a' p d
-  have hg := fun a' d => wsyncTail_glob env a' p d
-  have hy := fun a' d => wsyncTail_sys env a' p d
   unfold wsync
   split
   · split
     · split
       · simp
-      · cases σ <;> simp only [Side.get, Parts.at, (hd _ _).1, setDb] <;> (try split) <;> simp_all
+      · cases σ <;> simp only [Side.get, Parts.at] <;> (try split) <;>
+          simp_all [setDb_other, getD_cases]
     · simp
   · split
     · simp
-    · cases σ <;> simp only [Side.get, Parts.at, (hd _ _).1] <;> (try split) <;> (try split) <;>
-        simp_all [setDb_other]
-      · cases p.schema <;> simp_all
-      · cases p.refl <;> simp_all
-      · cases p.dbcfg <;> simp_all
-
-
+    · cases σ <;> simp only [Side.get, Parts.at] <;> (try split) <;> (try split) <;>
+        simp_all [setDb_other, getD_cases]
 
 /-- complete sync: the returned record is the stored one -/
 theorem wsync_ok_db (env : Env) (a : Side) (db : Nat) (p : Parts) (d : Db3) :
     (wsync env a db p).2 = some d → (wsync env a db p).1.dbs db = some d := by
-  have hd := fun a' d => wsyncTail_dbs env a' p d
-  have hk := fun a' d d' => wsyncTail_ok env a' p d d'
   unfold wsync
   split
   · split
     · split
       · simp
-      · intro h
-        rw [(hd _ _).1, (hk _ _ _ h).1]; simp
+      · intro h; simp at h; subst h; simp
     · simp
   · rename_i d0 hd0
     split
     · simp
     · intro h
-      simp only [] at h ⊢
-      rw [(hd _ _).1, (hk _ _ _ h).1]
+      simp only [Option.some.injEq] at h
+      subst h
+      simp only []
       split
       · simp
       · rename_i hn
@@ -113,41 +96,20 @@ theorem wsync_ok_db (env : Env) (a : Side) (db : Nat) (p : Parts) (d : Db3) :
 theorem wsync_ok_slot (env : Env) (a : Side) (db : Nat) (p : Parts) (d : Db3)
     (σ : Slot) (t : Tok) (hs : p.at db σ = some t) :
     (wsync env a db p).2 = some d → (wsync env a db p).1.get σ = some t := by
-  have hd := fun a' d => wsyncTail_dbs env a' p d
-  have hk := fun a' d d' => wsyncTail_ok env a' p d d'
   unfold wsync
   split
   · split
     · split
       · simp
       · intro h
-        have := hk _ _ _ h
-        cases σ <;> simp only [Side.get, Parts.at, (hd _ _).1] at hs ⊢ <;> (try split at hs) <;> simp_all
+        simp only [Option.some.injEq] at h; subst h
+        cases σ <;> simp only [Side.get, Parts.at] at hs ⊢ <;> (try split at hs) <;> simp_all
     · simp
   · split
     · simp
     · intro h
-      have := hk _ _ _ h
-      cases σ <;> simp only [Side.get, Parts.at, (hd _ _).1] at hs ⊢ <;> (try split at hs) <;> simp_all
-
-/-- no late failure point ⇒ a failed sync leaves the worker untouched -/
-theorem wsync_fail_clean (env : Env) (a : Side) (db : Nat) (p : Parts)
-    (hg : badO env p.glob = false) (hy : badO env p.sys = false) :
-    (wsync env a db p).2 = none → (wsync env a db p).1 = a := by
-  have hf := fun a' d => wsyncTail_fail env a' p d hg hy
-  unfold wsync
-  split
-  · split
-    · split
-      · simp
-      · simp_all
-    · simp
-  · split
-    · simp
-    · simp_all
-
-
-
+      simp only [Option.some.injEq] at h; subst h
+      cases σ <;> simp only [Side.get, Parts.at] at hs ⊢ <;> (try split at hs) <;> simp_all
 
 /-! ### preargs -/
 
@@ -183,20 +145,8 @@ theorem preargs_unknown_db (b : Side) (r : CReq) (hb : b.dbs r.db = none) (σ : 
 
 /-! ### the acknowledgement callback -/
 
-theorem orOld_cases (env : Env) (x : Option Tok) (old : Tok) :
-    orOld env x old = old ∨ x = some (orOld env x old) := by
-  unfold orOld; split <;> (try split) <;> simp
-
-theorem orOld_truthy (env : Env) (t old : Tok) (h : env.falsy t = false) :
-    orOld env (some t) old = t := by
-  simp [orOld, h]
-
-theorem getD_cases (x : Option Tok) (old : Tok) : x.getD old = old ∨ x = some (x.getD old) := by
-  cases x <;> simp
-
-
-theorem withAck_defined (env : Env) (b : Side) (r : CReq) :
-    ∃ b', withAck env b r.db (preargs b r) = some b' := by
+theorem withAck_defined (b : Side) (r : CReq) :
+    ∃ b', withAck b r.db (preargs b r) = some b' := by
   unfold withAck
   split
   · exact ⟨_, rfl⟩
@@ -204,8 +154,8 @@ theorem withAck_defined (env : Env) (b : Side) (r : CReq) :
     | none => simp [ack, preargs, hb]
     | some d => simp [ack, hb]
 
-theorem withAck_last (env : Env) (b b' : Side) (db : Nat) (p : Parts)
-    (h : withAck env b db p = some b') : b'.last = b.last := by
+theorem withAck_last (b b' : Side) (db : Nat) (p : Parts)
+    (h : withAck b db p = some b') : b'.last = b.last := by
   unfold withAck ack at h
   split at h
   · simp_all
@@ -215,8 +165,8 @@ theorem withAck_last (env : Env) (b b' : Side) (db : Nat) (p : Parts)
     · simp at h; subst h; rfl
 
 /-- the callback changes a slot only to the value sent for it -/
-theorem withAck_slot (env : Env) (b b' : Side) (db : Nat) (p : Parts)
-    (h : withAck env b db p = some b') (σ : Slot) :
+theorem withAck_slot (b b' : Side) (db : Nat) (p : Parts)
+    (h : withAck b db p = some b') (σ : Slot) :
     b'.get σ = b.get σ ∨ ∃ t, p.at db σ = some t ∧ b'.get σ = some t := by
   unfold withAck ack at h
   split at h
@@ -229,14 +179,11 @@ theorem withAck_slot (env : Env) (b b' : Side) (db : Nat) (p : Parts)
     · simp at h; subst h
       cases σ <;> simp only [Side.get, Parts.at] <;> (try split) <;> (try split) <;>
         simp_all [setDb_other]
-      all_goals first | exact orOld_cases .. | exact getD_cases ..
+      all_goals exact getD_cases ..
 
-
-/-- the callback records a sent value unless it is a falsy per-database part
-    merged into an existing record (`new or old`) -/
-theorem withAck_records (env : Env) (b b' : Side) (db : Nat) (p : Parts)
-    (h : withAck env b db p = some b') (σ : Slot) (t : Tok) (hs : p.at db σ = some t)
-    (hf : b.dbs db = none ∨ env.falsy t = false ∨ σ = .glob ∨ σ = .sys) :
+/-- the callback records every value that was sent (`old if new is None else new`) -/
+theorem withAck_records (b b' : Side) (db : Nat) (p : Parts)
+    (h : withAck b db p = some b') (σ : Slot) (t : Tok) (hs : p.at db σ = some t) :
     b'.get σ = some t := by
   unfold withAck ack at h
   split at h
@@ -248,8 +195,6 @@ theorem withAck_records (env : Env) (b b' : Side) (db : Nat) (p : Parts)
         cases σ <;> simp only [Side.get, Parts.at] at hs ⊢ <;> (try split at hs) <;> simp_all
       · simp at h
     · simp at h; subst h
-      cases σ <;> simp only [Side.get, Parts.at] at hs ⊢ <;> (try split at hs) <;>
-        simp_all [orOld]
-
+      cases σ <;> simp only [Side.get, Parts.at] at hs ⊢ <;> (try split at hs) <;> simp_all
 
 end EdbVerif.Sync
